@@ -381,6 +381,19 @@ def gen_item_C16(rng, idx, tier):
             [['pad', [[rng.randint(0, 2), rng.randint(0, 2)] for _ in range(nd)], None], ['affine', rng.choice([2, 4]), 0],
              ['rescale', rng.choice([1, 3])]]
         thr = None
+    if idx % 16 == 11:
+        # values just above 1 (1 + r * 2**-52) with a min_delta that is not a multiple of their spacing: every difference
+        # is exact in float64, a sum `base + delta` is not; the exact shift v -> v - 1 makes everything small
+        case['k'] = [None if x is None else 2 ** 60 + 256 * rng.randint(0, 24) for x in case['k']]
+        case['fb'] = 60
+        case['dtype'] = 'float64'
+        case['kind'] = 'nearone'
+        case['mind'] = 256 * rng.randint(0, 6) + rng.choice([1, 3, 17, 129])
+        case['minv'] = [0, 1]
+        case['crits'] = []
+        case.pop('inf', None)
+        trs = [t for t in trs if t[0] in ('perm', 'flip', 'unit')] + [['affine', 1, -2 ** 60], ['affine', 2, -2 ** 61]]
+        thr = None
     return {'case': case, 'trs': trs, 'thr': thr}
 
 
